@@ -88,11 +88,14 @@ LinkId(j) == "L" \o ToString(j)
 OrigId(a) == "O" \o ToString(a)
 DestId(a) == "D" \o ToString(a)
 
-SegCount(j, k) == ((j + k) % 3) + 1
-VslOf(j, k, N) == LET c == (2 * j + 3 * k) % 5
+SegCount(j, k) == ((j + k) % 4) + 1
+\* plain | speed-limited with no / first / last / all / the last two (not a prefix) / the outer (not contiguous) segments
+VslOf(j, k, N) == LET c == (2 * j + 3 * k) % 7
                   IN CASE c = 0 -> [ctl |-> FALSE, vsl |-> {}] [] c = 1 -> [ctl |-> TRUE, vsl |-> {}]
                        [] c = 2 -> [ctl |-> TRUE, vsl |-> {1}] [] c = 3 -> [ctl |-> TRUE, vsl |-> {N}]
-                       [] OTHER -> [ctl |-> TRUE, vsl |-> 1..N]
+                       [] c = 4 -> [ctl |-> TRUE, vsl |-> 1..N]
+                       [] c = 5 -> [ctl |-> TRUE, vsl |-> {i \in 1..N : i >= N - 1}]
+                       [] OTHER -> [ctl |-> TRUE, vsl |-> {1, N}]
 
 \* the decorated network of shape s under variant k (all parameters pairwise distinct per slot)
 NetOf(s, k) ==
@@ -125,9 +128,9 @@ OptsOf(c) == [pis |-> (c % 2) = 1, pid |-> ((c \div 2) % 2) = 1, piq |-> ((c \di
 R(a, b) == <<RQ(a, 1), RQ(b, 1)>>
 \* point kinds: 1..Generic generic; then corners by name
 CornerNames == <<"zero_rho", "zero_v", "zero_w", "rho_max", "rho_crit", "ctrl0", "ctrl1inf", "high_demand",
-                 "congested", "free", "mixed_zero", "low_speed">>
+                 "congested", "free", "mixed_zero", "low_speed", "ctrl_mixed">>
 PointKind(p) == IF p <= Generic THEN "generic"
-                ELSE IF Family = "neutral" THEN Tab(<<"ctrl1inf", "congested", "ctrl1inf", "free">>, p - Generic)
+                ELSE IF Family = "neutral" THEN Tab(<<"ctrl1inf", "ctrl_mixed", "congested", "ctrl1inf", "free", "ctrl_mixed">>, p - Generic)
                 ELSE Tab(CornerNames, p - Generic)
 
 \* value of one input slot of net under point (key, kind)
@@ -175,6 +178,7 @@ SlotValue(net, key, kind, slot) ==
        [] t = "vc" ->
             (CASE kind = "ctrl0" -> Zero
                [] kind = "ctrl1inf" -> Inf
+               [] kind = "ctrl_mixed" -> IF coin = 0 THEN U(20, 120) ELSE Inf     \* some signs off (infinite), some on
                [] OTHER -> U(20, 120))
        [] t = "dd" ->
             (CASE kind = "mixed_zero" -> Zero
